@@ -55,6 +55,8 @@ class Plan(object):
         self.capture_hooks = program.get("capture_hooks")
         # the environment file defines no before_all hook (behave then installs its default one, which sets up logging)
         self.no_before_all = bool(program.get("no_before_all"))
+        # hook functions that the environment file does not define at all (e.g. after_tag without before_tag)
+        self.omit_hooks = list(program.get("omit_hooks") or [])
 
 
 _EXC = {"Exception": RuntimeError, "AssertionError": AssertionError, "KeyboardInterrupt": KeyboardInterrupt}
@@ -460,6 +462,8 @@ def run_program(program, formatters=None, reporters=None, features=None, config=
         runner.features = features
         runner.step_registry = registry
     runner.hooks = make_hooks(plan)
+    for name in plan.omit_hooks:
+        runner.hooks.pop(name, None)
     if formatters:
         runner.formatters = formatters(config) if callable(formatters) else list(formatters)
     if reporters is not None:
